@@ -86,6 +86,26 @@ def judge_observation(ts, vtags, classes, aliases):
 MARK = re.compile(r"^#o(\d+)$")
 
 
+def plain_nil_observations(res):
+    """observations `#oN / typeof / value` whose static type is plain (not `T?`, not `nil`) and whose value is nil"""
+    out = []
+    lines = res.lines
+    for i in range(len(lines) - 2):
+        tags, text = lines[i]
+        m = MARK.match(text) if tags == ("Str",) else None
+        if not m:
+            continue
+        (ttags, ttext), (vtags, vtext) = lines[i + 1], lines[i + 2]
+        if ttags != ("Str",) or ttext.endswith("?") or ttext == "nil":
+            continue
+        vt = vtags
+        while vt and vt[0] == "Optional":
+            vt = vt[1:]
+        if vt == ("Nil",):
+            out.append((int(m.group(1)), ttext))
+    return out
+
+
 def judge_program(res, meta):
     """-> (findings [(class, what)], number of observations checked, number of distinct observation ids seen)"""
     classes = set(meta.get("classes", []))
